@@ -1,0 +1,9 @@
+//go:build !verif
+
+package rosmar
+
+// verifPoint is a no-op unless built with the `verif` tag (verification instrumentation).
+func verifPoint(string, ...any) {}
+
+// verifNowOverride lets the verification harness script the wall clock; disabled in normal builds.
+func verifNowOverride() (uint32, bool) { return 0, false }
